@@ -282,7 +282,59 @@ func H_C17_desc(v *V) {
 	v.Assert(v.Contains(out, want), "the description is printed uncorrupted (with its default and environment variable beside it)")
 }
 
+type c17Clone struct {
+	Pos struct {
+		Repo string `positional-arg-name:"repo" description:"DESCR"`
+		Dest string `positional-arg-name:"destination-directory" description:"DESCD"`
+	} `positional-args:"yes"`
+}
+type c17CloneOpt struct {
+	Depth int `long:"depth" description:"DESCO"`
+	Pos   struct {
+		Repo string `positional-arg-name:"repo" description:"DESCR"`
+		Dest string `positional-arg-name:"destination-directory" description:"DESCD"`
+	} `positional-args:"yes"`
+}
+
+// H_C17_cmdargs: the help of an active command whose positional argument
+// names are longer than every option label - with and without options of
+// its own, with and without the built-in help group.
+func H_C17_cmdargs(v *V) {
+	type root struct {
+		V bool `short:"v" long:"verbose" description:"DESCV"`
+	}
+	opts := Options(0)
+	if v.Choice(2) == 1 {
+		opts |= HelpFlag
+	}
+	p := NewNamedParser("prog", opts)
+	p.AddGroup("Application Options", "", &root{})
+	own := v.Choice(2) == 1
+	var c *Command
+	if own {
+		c, _ = p.AddCommand("clone", "clone it", "", &c17CloneOpt{})
+	} else {
+		c, _ = p.AddCommand("clone", "clone it", "", &c17Clone{})
+	}
+	c.Args()[0].Name = "r" + c17Name(v, v.Shape("n"))
+	v.TermWidth(v.Shape("width"))
+	p.ParseArgs([]string{"clone"})
+	var buf bytes.Buffer
+	p.WriteHelp(&buf)
+	out := buf.String()
+	v.Reach("rendered")
+	v.ObserveStr("help", out)
+	cv, cr, cd := c17Column(out, "DESCV"), c17Column(out, "DESCR"), c17Column(out, "DESCD")
+	v.Assert(cv >= 0 && cr >= 0 && cd >= 0, "every description is printed")
+	v.Assert(cr == cd, "argument descriptions start in one common column")
+	if own {
+		co := c17Column(out, "DESCO")
+		v.Assert(co >= 0 && co == cv, "option descriptions of the chain start in one common column")
+	}
+}
+
 func init() {
+	vHarnesses["H_C17_cmdargs"] = H_C17_cmdargs
 	vHarnesses["H_C17_desc"] = H_C17_desc
 	vHarnesses["H_C17_wrap"] = H_C17_wrap
 	vHarnesses["H_C17_wrapraw"] = H_C17_wrapraw
